@@ -12,13 +12,14 @@ COMMON_NOTE = ("Trusted: Lean 4.33 kernel (axioms audited per theorem on every r
 
 E = {}
 E["C05"] = dict(
-    text="Lean 4 theorems (Props/C05.lean, 21) about an executable transcription of the write side of lib/rio.c and its callers "
+    text="Lean 4 theorems (Props/C05.lean, 26) about an executable transcription of the write side of lib/rio.c and its callers "
          "(stream chain, lookup on (type,name), open-on-miss, re-offer loop, eof latch, two-way-pipe half-close machine, flushall/clearall, "
          "print/printf/close/fflush/getline statements, end-of-run sequence) with the handler as a universally quantified adversary "
          "(reply per call: accept k, eof, fail): delivered-exactly-once-in-order, failure always surfaces (never success with bytes missing), "
          "open/close balance in every reachable state and after teardown, flushed at return. Tied to the code by an in-process harness with "
-         "logging/scripted rio handlers; the check first evaluates clauses (a)-(d) directly on the real handler log, then diffs it with the model's.",
-    note="Not modelled: std.c's own handlers (sio/tio/pio buffering, real pipes), the read side beyond sharing the chain, main-rule programs (BEGIN only).",
+         "logging/scripted rio handlers; the check first evaluates clauses (a)-(d) directly on the real handler log, then diffs it with the model's. "
+         "Added in the last round: a second family runs hawk's own std.c -> sio -> tio -> fio/pio handlers with a scripted write(2) (short writes, 0, EIO; exact buffer fills; files, pipes, two-way pipes, console files) judged on the bytes that reach the sink; FLUSH-before-CLOSE and the failing final flush are modelled (close_reports_flush_failure, final_flush_failure_surfaces).",
+    note="Not modelled (run and judged by the sink oracle only): std.c's own handlers (sio/tio/pio buffering, real pipes), the read side beyond sharing the chain, main-rule programs (BEGIN only).",
     tech="Lean 4 proof (invariants by induction over op histories x adversarial handler) + property oracle on the real handler log + differential correspondence")
 E["C16"] = dict(
     text="Lean 4 theorems (Props/C16.lean 28 + Props/C16Htb.lean 35). RBT: a functional model that reproduces rbt.c's insert/adjust and "
@@ -28,9 +29,10 @@ E["C16"] = dict(
          "arbitrary hash function, sizer and allocator oracle: well-formedness (placement, unique keys, size = sum of chains) and dictionary "
          "refinement for every history incl. rehash and failed rehash; iteration/walk = a permutation of the dictionary, each pair once. "
          "FOR-IN: run_forin's key snapshot: the loop visits exactly the entry-time keys (prefix on break/return/exit) whatever the body does. "
-         "Tied to the code by harnesses dumping tree shape/colours/parent links and bucket chains after every op, and by generated hawk programs.",
-    note="Not modelled: allocation failure in rbt, custom copiers/freeers (the custom value-copier branch of allocpair has an inverted NULL test, "
-         "recorded in DESIGN.md, outside the four predefined styles), cbsert; comparator abstracted to < on Nat; for-in model language is ForIn.Stmt.",
+         "Tied to the code by harnesses dumping tree shape/colours/parent links and bucket chains after every op, and by generated hawk programs. "
+         "Added in the last round: cbsert (callback upsert) in both containers' models, theorems and histories; user styles with key/value copiers, freeers and keepers; inline values updated with shorter/equal/longer values; the map/array value API of val.c; for-in over scalars and body errors.",
+    note="Not modelled: allocation failure in rbt, the custom value-copier branch of allocpair (its inverted NULL test was repaired in d035dda; "
+         "outside the four predefined styles); comparator abstracted to < on Nat; for-in model language is ForIn.Stmt.",
     tech="Lean 4 proof (refinement to an ideal dictionary + invariants by induction over histories) + property oracle (C-side invariant flags, python dict) + shape-level differential correspondence")
 E["C19"] = dict(
     text="Lean 4 theorems (Props/C19.lean, 30) about an executable transcription of lib/arr.c: refinement of insert/upsert/update/delete/uplete/"
@@ -47,59 +49,64 @@ E["C19"] = dict(
          "step), hawk_arr_walk/rwalk; 64-bit words and 8-byte slot pointers assumed (asserted by the harness).",
     tech="Lean 4 proof (invariant by induction over operations + refinement to a list spec, termination by measure) + property oracle + differential correspondence")
 E["C20"] = dict(
-    text="Lean 4 theorems (Props/C20.lean, 24) about an executable transcription of lib/xma.c (boundary tags as stored, free lists as ordered "
+    text="Lean 4 theorems (Props/C20.lean, 31) about an executable transcription of lib/xma.c (boundary tags as stored, free lists as ordered "
          "offset lists, alloc with class search and split, _realloc_merge, alloc-copy-free fallback, four-way free): the invariant WF (blocks tile "
          "the zone, prev_size consistent, aligned sizes >= minimum, no adjacent free blocks, each free list = the free blocks of its class, no "
          "duplicates) holds after init and every call for every history; live blocks aligned, in zone, pairwise disjoint; contents kept "
          "(realloc keeps min(old,new)); copy lengths within blocks; all freed => one block covering the zone in its class list; szlog2 = floor log2. "
          "Constants (ALIGN, header sizes, FIXED, XFIMAX...) are regenerated from the headers on every run (extract/xma_const.py). Tied to the code by "
          "a harness with ASan-poisoned guard bands, per-block content patterns and full chain/free-list dumps; BFS by heap state + random histories; "
-         "`hawk -m N` smoke runs.",
+         "`hawk -m N` smoke runs. "
+         "Added in the last round: caller-supplied zones of any size (every residue mod 16; the last block absorbs the residue), calloc, the dump walker; reachable_zone / reachable_inside (every live block ends within the bytes given to init).",
     note="Not modelled: bit-field packing and pointer arithmetic (ASan only), statistics counters (compared against values derived from the model), "
-         "external zones that are not ALIGN-aligned; callers pass only live pointers; zone < 2^63.",
+         "callers pass only live pointers; zone < 2^63.",
     tech="Lean 4 proof (structural invariant by induction over alloc/realloc/free histories) + translator for constants + property oracle + differential correspondence")
 
 E["C03"] = dict(
-    text="Lean 4 theorems (Props/C03.lean, 28) about an executable transcription of lib/rec.c and the NF setter (record line, field values AND the "
+    text="Lean 4 theorems (Props/C03.lean, 31) about an executable transcription of lib/rec.c and the NF setter (record line, field values AND the "
          "(offset,length) spans that truncrec and positional references read through; split_record in blank / single-char / empty / regex (matcher "
          "parameter) / '?'-quoted modes; recomp_record_fields; truncrec; cached OFS): the coherence invariant (NF = number of fields, every span covers "
          "its value's text, $0 = line, line = fields joined by the OFS in force at the last rebuild or fields = split of the text last given) holds "
          "after every history; $i reads the value last given or its split piece, by value and by span; beyond NF reads empty; negative NF rejected "
          "with the state unchanged; split laws (join of single-char pieces rebuilds the string, blank-mode characterisation and idempotence). "
          "Tied to the code by an in-process harness that dumps inrec.line and every span after each statement; python shadow oracle and gawk agreement "
-         "on the implementation's own output first, then diff with the Lean driver.",
-    note="Not modelled: the substitution done by sub/gsub itself (property C13), IGNORECASE=1, numstrdetect, allocation failure; regex matching is a parameter (Sane m).",
+         "on the implementation's own output first, then diff with the Lean driver. "
+         "Added in the last round: IGNORECASE and nil FS in the model, special variables holding nil/int/float/byte-string/char/map values, CONVFMT-dependent texts, rebuild_same_separator (every rebuild of $0 joins with the one cached OFS text whatever type OFS holds).",
+    note="Not modelled: the substitution done by sub/gsub itself (property C13), numstrdetect, allocation failure; regex matching is a parameter (Sane m).",
     tech="Lean 4 proof (coherence invariant by induction over assignment histories) + property oracle + differential correspondence incl. internal spans")
 E["C11"] = dict(
-    text="Lean 4 theorems (Props/C11.lean, 18) about a model of the __cmp_* family that INTERPRETS tables regenerated from lib/run.c on every run "
+    text="Lean 4 theorems (Props/C11.lean, 25) about a model of the __cmp_* family that INTERPRETS tables regenerated from lib/run.c on every run "
          "(extract/cmp_table.py: the 100-entry dispatch table, each routine's shape base/mirror/alias/ensure-not-equal/reject, inverse op table, the "
          "operator tests, teq polarity; fails closed): dispatch_correct (decide over the generated table), antisymmetry, trichotomy, a<b iff b>a, "
          "<= iff < or ==, != iff not ==, == symmetric, === implies ==, cmp is a total preorder on each kind, asort/asorti return a sorted permutation "
          "for one-kind input; for every float/conversion/case-folding parameter satisfying stated laws (no NaN) and every IGNORECASE/NCMPONSTR setting. "
          "Harness: hawk_rtx_cmpval and all seven operators at language level on every ordered pair of a 154-value pool under each configuration; the laws "
-         "are evaluated on the real outputs first, then every result is compared with the Lean driver.",
+         "are evaluated on the real outputs first, then every result is compared with the Lean driver. "
+         "Added in the last round: asort/asorti over maps with any keys, arrays with slot 0 / gaps / deleted elements, nil and scalar sources, in-place and previous-result forms, user and failing comparators (asort_src_perm, asorti_array_subscripts, asort_user_sorted).",
     note="Number<->string conversion and case folding are parameters instantiated in the driver with the implementation's own answers; hawk_qsortx is "
          "transcribed only for its insertion-sort path (n<7), larger inputs are checked as sorted permutations (sorted_perm_unique); NaN and teq's pointer shortcut not modelled.",
     tech="Lean 4 proof over tables regenerated from the source (translator) + laws evaluated on the real code + differential correspondence")
 E["C13"] = dict(
-    text="Lean 4 theorems (Props/C13.lean, 39) about an executable transcription of the string builtins of lib/fnc.c and their str:: twins, generic in the "
+    text="Lean 4 theorems (Props/C13.lean, 53) about an executable transcription of the string builtins of lib/fnc.c and their str:: twins, generic in the "
          "element type and in the regex matcher: substr = clamped 1-based range for all Int start/len (fractions truncated), index/rindex = first/last "
          "occurrence or 0 for every start argument, split laws (single-char join rebuilds the string, count+1 pieces; blank mode), gsub = declarative "
          "replacement over the leftmost non-overlapping match sequence with count = number of matches for EVERY matcher, the &, \\&, \\\\& template laws, "
          "match sets RSTART/RLENGTH to the match it reports, tolower/toupper idempotent and length preserving, frame lemmas. Tied to the code by a harness "
          "rendering each call with every argument type; the regex engine's raw answers are passed to the driver as data (regex semantics is property C06); "
-         "python property oracle + gawk/mawk second opinion on hawk's own output first, then diff with the Lean driver.",
-    note="Not modelled: two-argument sub/gsub on $0 (C03), sub-match groups of match(s,r,arr), IGNORECASE, numeric strings as numeric arguments; UTF-8 codec, CONVFMT "
+         "python property oracle + gawk/mawk second opinion on hawk's own output first, then diff with the Lean driver. "
+         "Added in the last round: everything implemented in mod-str.c itself (trim/ltrim/rtrim/normspace, subchar, tocharcode/fromcharcode/frombcharcode, is* class tests, tombs/frommbs, tonum), IGNORECASE variants of index/rindex and the tokeniser, two-argument sub/gsub on $0.",
+    note="Not modelled: sub-match groups of match(s,r,arr), numeric strings as numeric arguments; UTF-8 codec, CONVFMT "
          "formatting, case/space tables are environment parameters. Two recorded findings (index of empty in empty; four-backslash template run).",
     tech="Lean 4 proof (defining equations, generic in the matcher) + property oracle and reference awks + differential correspondence")
 E["C15"] = dict(
-    text="Lean 4 theorems (Props/C15.lean, 26) about the UTF-8 codec parametrised by the utf8_table[] rows regenerated from lib/utf8.c on every run "
+    text="Lean 4 theorems (Props/C15.lean, 50) about the UTF-8 codec parametrised by the utf8_table[] rows regenerated from lib/utf8.c on every run "
          "(extract/utf8_table.py) and about tio.c's read/write staging: decode(encode c) = c for every c < 65536, encode(decode) on accepted shortest forms, "
          "decoder never reads out of bounds and is total with a deterministic verdict on arbitrary bytes, whole-string conversion both ways (length = number "
          "of characters), tio read side independent of the chunking for every well-formed BMP string (any capacity >= 3, any request size), in-bounds on "
          "arbitrary bytes, write side round trip, byte-string reads/writes are the identity. Harness: every BMP value and all 1-/2-byte sequences through the "
          "real codec with exact-size heap buffers under ASan, tio under scripted chunkings, CLI runs with every BMP scalar at three alignments to the I/O "
-         "buffers and all 256 byte values; python's codec and schedule-independence as oracle first, then diff with the Lean driver.",
+         "buffers and all 256 byte values; python's codec and schedule-independence as oracle first, then diff with the Lean driver. "
+         "Added in the last round: the codec is a parameter satisfying two small interfaces (CodecOk, DecTotal) that utf8, utf16 and mb8 are proved to meet, so chunk independence, exactly-once writing and read safety hold for all three managers; by-name manager selection; the byte<->text conversions behind the val.c constructors (two-pass sizing never overruns).",
     note="Overlong forms and 4-byte sequences are accepted/truncated by the C decoder (table's lower column unused) and are modelled as they are; handler errors, the "
          "flush retry loop and the byte-string value paths in val.c/run.c/fmt are tied by CLI runs only.",
     tech="Lean 4 proof (round trips, bounds, chunk-independence by induction over chunk lists) over a table regenerated from the source + property oracle + differential correspondence")
@@ -111,45 +118,49 @@ E["C07"] = dict(
          "acyclic garbage is freed at once, after a full collection everything live is reachable, the heap is empty after teardown, no stale sentinel "
          "between operations; plus legacy_breaks_ledger exhibiting the repaired defect on the unrepaired model. Tied to the code by an in-process harness "
          "dumping v_refs, gc_refs, generation and element lists after every op with a counting allocator, and by generated hawk programs under "
-         "ASan+LeakSanitizer; python shadow ledger/reachability oracle first, then diff with the Lean driver.",
+         "ASan+LeakSanitizer; python shadow ledger/reachability oracle first, then diff with the Lean driver. "
+         "Added in the last round: the take operation (getmapvalfld/getarrvalfld holders), collection by allocation pressure alone at default thresholds, hawk::array/map constructors and hawk::call stores, and a value-flow family (inc/dec/assignment forms x targets x float/string/boxed-int results used after churning the free lists).",
     note="Not modelled: leaf values, the str/mbs/ref recycling caches and int/flt chunk lists (ASan only), order inside generation lists, allocation failure (C10).",
     tech="Lean 4 proof (ledger + reachability invariants by induction over heap-operation histories incl. the collector) + property oracle + differential correspondence")
 E["C10"] = dict(
-    text="PARTIAL by nature (the thousands of individual `if (!p)` branches are enumerated, not proved). Lean 4 theorems (Props/C10.lean, 20): a generic theorem "
+    text="PARTIAL by nature (the thousands of individual `if (!p)` branches are enumerated, not proved). Lean 4 theorems (Props/C10.lean, 22): a generic theorem "
          "unwind_balanced (for ANY acquire/goto-label/release table passing a decidable well-formedness check, under every failure pattern released = acquired, no "
          "duplicates; success owns everything; no refusal is swallowed) instantiated by `decide` on 14 constructor tables REGENERATED from the source on every run "
          "(extract/unwind.py: ecs_init/open, htb/arr/rbt open, init_token, hawk_init, hawk_open, hawk_openstdwithmmgr, init_rtx, hawk_rtx_open; fails closed); "
          "gc_calloc's collect-and-retry is bounded and ends in a block or ENOMEM; the ecs grow-or-fail logic is atomic under refusal; arr insert is atomic (from C19). "
          "Fault enumeration harness: counting/injecting allocator, fail-exactly-k and fail-from-k for every request index of an 18-program corpus through the whole "
          "open/parse/run/close life cycle (ENOMEM or identical output, no sanitizer report, zero live blocks, no foreign free), `hawk -m N` sweep; outcome per "
-         "constructor phase compared with the model.",
+         "constructor phase compared with the model. "
+         "Added in the last round: 23 unwind tables (xma/tio/fio/sio/pio/dir/mtx open), direct API cases for every gem/ecs/htb/rbt/arr/value wrapper under three fault patterns, life-cycle variants (openstdwithucstr, parse from memory + deparse to string, include dirs), CLI option sweeps; ecs nrcat/nccat/del/amend modelled.",
     note="Trusted: the translator's ALLOC/RELEASE/INERT name lists (printed in the evidence); HAWK_TOLERANT switched off for the enumeration (a failing print returns -1 by design with it on). "
          "Three recorded findings (EOPEN instead of ENOMEM from sio open wrappers; arr insert frees the caller's value when growth fails; setretval(make*val()) call sites).",
     tech="Lean 4 proof over unwind tables regenerated from the source (translator) + models of the retry/grow logic; fault enumeration supports, does not replace, the theorems")
 E["C14"] = dict(
-    text="PARTIAL (frames, not bytes; residual unguarded cycles are recorded findings). Lean 4 theorems (Props/C14.lean, 26): a generic theorem that in a finite call graph whose "
+    text="PARTIAL (frames, not bytes). Lean 4 theorems (Props/C14.lean, 31): a generic theorem that in a finite call graph whose "
          "unguarded edges are acyclic every call stack consistent with the depth counters has length <= (sum of limits + 1)*|V|; its converse (a closed walk of unguarded edges "
          "gives unbounded stacks); the instance for the call graph REGENERATED from lib/*.c and bin/hawk.c on every run (extract/callgraph.py via clang AST: 306 nodes on cycles, "
          "683 edges, indirect calls resolved through tables/prototypes, guard idiom recognised, fails closed) checked by `decide +kernel` on a topological-numbering certificate; "
          "hawk_stack_bounded_partial for stacks avoiding the listed residual cycles, and residual_groups_known which breaks when a NEW unguarded cycle appears; CLI/library "
          "default limits positive and actually read; closed-form counter arithmetic for 21 nesting shape families with reject_iff_exceeds / within_limit_unaffected. "
          "Harness: the real bin/hawk.c with limit overrides, every (family, depth up to 10^6, limit configuration) under a fixed ulimit -s, outcome class compared with the model; "
-         "any SIGSEGV outside the recorded findings is a violation.",
-    note="Trusted: the extractor incl. 13 assumed-cut edges listed with reasons in the evidence; native frame sizes are not modelled. 13 recorded findings (unguarded statement/destructor/deparser cycles, "
+         "any SIGSEGV outside the recorded findings is a violation. "
+         "After the four repairs of the last round (else-if ladders, unbraced nesting, deparser left chains, nested container destruction) the list of known unguarded cycles is empty: the call graph has no residual group on the current tree.",
+    note="Trusted: the extractor incl. 13 assumed-cut edges listed with reasons in the evidence; native frame sizes are not modelled. 3 recorded findings left (the two regex depth limits that are stored but never read, quadratic memory of deeply nested regex groups); formerly also (unguarded statement/destructor/deparser cycles, "
          "unread rex depth options, quadratic regex memory).",
     tech="Lean 4 proof over a call graph regenerated from the source (translator, decide +kernel certificate) + depth-counter model; differential classification of real runs")
 E["C18"] = dict(
-    text="PARTIAL (sed.c modelled at command granularity; script-text compiler not modelled). Lean 4 theorems (Props/C18.lean, 42) about a reference sed executor transcribed from "
+    text="PARTIAL (sed.c modelled at command granularity; script-text compiler not modelled). Lean 4 theorems (Props/C18.lean, 44) about a reference sed executor transcribed from "
          "sed.c's exec loop (cycle structure, match_address range machine, n/N/D end-of-input rules, a/i/c queues, q, y, l, branching with fuel, do_subst generic in the matcher): "
          "range_spec (the a1_matched machine = the declarative POSIX range function for every address kind and line sequence) and its end-to-end form, subst_occurrence (N-th / all "
          "matches over the leftmost non-overlapping sequence for every matcher), the t-flag law, empty-regex reuse, hold-space algebra, frame lemmas, forward scripts never run out "
          "of fuel. Three-way correspondence: hawk-sed vs the Lean model vs GNU `sed --posix` on generated scripts x inputs (with/without trailing newline, multibyte); "
-         "hawk-sed != GNU sed where the model agrees with GNU = violation; model != GNU = model bug; byte-mutated scripts under ASan for the safety half.",
-    note="Trusted: GNU sed 4.9 --posix as reference; the regex engine is a parameter (driver carries a small BRE matcher for the generator's pool). Not modelled: r/R/W/Q/z, k flag, I modifier. "
+         "hawk-sed != GNU sed where the model agrees with GNU = violation; model != GNU = model bug; byte-mutated scripts under ASan for the safety half. "
+         "Added in the last round: the r command (modelled: readFile_effect), C escapes in regexes/replacements/y, stylised delivery (delimiters, blanks, comments, several -e/-f fragments, several input files).",
+    note="Trusted: GNU sed 4.9 --posix as reference; the regex engine is a parameter (driver carries a small BRE matcher for the generator's pool). Not modelled: R/W/Q/z, k flag, I modifier. "
          "One recorded finding (N at end of input prints the pattern space, GNU default behaviour).",
     tech="Lean 4 proof about a reference executor (range automaton = spec, substitution law, hold-space algebra) + three-way differential correspondence with GNU sed")
 E["C01"] = dict(
-    text="PARTIAL by nature: memory safety of the unmodelled bulk of the interpreter is only sampled. Lean 4 theorems (Props/C01.lean, 13) over tables REGENERATED from the "
+    text="PARTIAL by nature: memory safety of the unmodelled bulk of the interpreter is only sampled. Lean 4 theorems (Props/C01.lean, 14) over tables REGENERATED from the "
          "source on every run by clang-AST translators that fail closed (extract/fnc_dispatch.py, loops.py, div_sites.py, flag_sites.py): tagged_value_dispatch (each of the 46 "
          "casts of an argument value to a concrete value struct in fnc.c/mod-str.c/mod-hawk.c/misc.c/std.c/rec.c/rio.c is dominated only by the type tags that denote that struct), "
          "flag_index_range (every value set_global can store into gbl.ignorecase indexes the two-element arrays in range at all 8 uses), div_guards (every hawk_int_t / and % site in "
@@ -157,18 +168,20 @@ E["C01"] = dict(
          "the subject, with C's signed/unsigned wrap modelled), halt_polled (every script- or count-controlled loop polls the halt flag each iteration; the only unpolled while(1) "
          "loops are the four format grow-and-retry loops), the repaired exponent loop is bounded by 64 iterations, failures carry a non-zero error number, model totality. "
          "Campaign: grammar-generated + template + byte/token-mutated programs (all 100 builtins/module functions) x input shapes x trait sets, in-process under ASan/UBSan/asserts "
-         "with a statement heartbeat, repeated halt requests and a SIGKILL watchdog; any signal, sanitizer report, errnum 0 on failure, unanswered halt or unclean close is a violation.",
-    note="Trusted: the extractors (shapes they do not understand fail the check); run.c/val.c casts are dispatched through function tables and are not in the table. 11 recorded findings "
-         "(container lifetime family in run.c indexed access, rec.c NF/getline corner crashes, native stack overflow on destroying deeply nested maps = C14).",
+         "with a statement heartbeat, repeated halt requests and a SIGKILL watchdog; any signal, sanitizer report, errnum 0 on failure, unanswered halt or unclean close is a violation. "
+         "Added in the last round: the command-line front end as input (-v/-F/-f/operand/option combinations on the sanitized CLI), a sweep of every builtin/operator that has a byte-string twin with the patterns that decide termination, and setter histories (accepted then refused assignments to 22 special variables, through every write path).",
+    note="Trusted: the extractors (shapes they do not understand fail the check); run.c/val.c casts are dispatched through function tables and are not in the table. The recorded findings (KNOWN_FINDINGS.txt) are the reference-argument half of the container-lifetime family (get_reference_indexed and the builtins storing through such a reference) "
+         "and the quadratic regex compile; the indexed read/assign/delete half, the -v crash and the destructor/deparser recursion were repaired.",
     tech="Lean 4 proof over guard/dispatch/loop tables regenerated from the source (translators) + sanitizer campaign as correspondence and search")
 E["C04"] = dict(
-    text="Lean 4 theorems (Props/C04.lean, 25) about an executable transcription of hawk_rtx_readio's four record-separator branches and the console file chain "
+    text="Lean 4 theorems (Props/C04.lean, 30) about an executable transcription of hawk_rtx_readio's four record-separator branches and the console file chain "
          "(NEXT, FNR reset, FILENAME, NR/FNR): records_chunk_independent — for newline (CR stripping), single-character and paragraph modes, for EVERY chunking of the "
          "input into non-empty reads and from any reader state, the records equal a declarative splitter of the bytes; the (NR,FNR,FILENAME,record) sequence of any list of "
          "files equals the spec's and the end of a file ends the record (file_end_ends_record). Regex RS: the same under an explicit hypothesis Stable m (proved for literal "
          "separators), with a machine-checked counterexample for extensible patterns (records_chunk_independent_regex_partial, unstable_counterexample) = the recorded finding. "
          "Harness: custom console handler serving the same bytes under scripted chunkings (all 2^(n-1) chunkings of short inputs), the real std.c chain over temp files, getbline path; "
-         "oracle: same bytes under different chunkings give the same records, python reference splitter; then diff with the model incl. in.pos/len/eof.",
+         "oracle: same bytes under different chunkings give the same records, python reference splitter; then diff with the model incl. in.pos/len/eof. "
+         "Added in the last round: program families that abandon or interleave a stream (nextfile, getline forms from inside actions, side files with close/reopen, command pipes) under every RS mode and chunking; nextfile modelled (nextfile_drops_rest_of_file, script_chunk_independent).",
     note="Not modelled: handler error returns, sio/tio decoding below the handler (C15), the nrflt filter; hawk_rtx_readiobytes is the same text over bytes and is run, not modelled separately. "
          "One recorded finding (regex RS whose match can be extended across a read boundary).",
     tech="Lean 4 proof (chunk-independence by induction over chunk lists; regex mode partial under Stable) + schedule-independence oracle + differential correspondence")
@@ -179,7 +192,8 @@ E["C09"] = dict(
          "call-site cache, is value-determined and idempotent), usable_after_failed_call (stack and exit level restored after EDIVBY0/ESTACK/EFUNNF/EARGTM at any depth; only exit/halt "
          "latch; loop unlatches), ownership_balanced / call_leaves_arguments / no_dangling / close_releases_all (reference counts exact on success, failure and exit paths), "
          "clear_then_parse_eq_fresh. Harness: one interpreter, 2-3 contexts, generated interleavings also run as per-context projections on fresh interpreters (observations and "
-         "live-block counts must match), counting allocator + ASan; then diff with the Lean driver.",
+         "live-block counts must match), counting allocator + ASan; then diff with the Lean driver. "
+         "Added in the last round: re-parse histories where both programs use @include/@include_once/@pragma, source pieces in every hawk_parsestd form, calls that fail half-way through their argument list, and the equivalent API entry points (callwith*/findfunwith*/execwith*/setgbl by name/openstdwith*) chosen per op.",
     note="Not modelled: awk-level by-ref copy-back, pattern-action blocks, pipes, the collector (C07), modules; true thread-level concurrency.",
     tech="Lean 4 proof (non-interference and ownership invariants over API-operation histories) + projection oracle on the real API + differential correspondence")
 E["C17"] = dict(
@@ -189,7 +203,8 @@ E["C17"] = dict(
          "(parse(print a) = norm a for every well-formed tree), roundtrip_twice (second generation accepted, third = second textually), every operator spelling lexes back to exactly one "
          "level's opcode, print_no_glue (adjacent printed tokens never lex differently; the cut rule agrees with the C symbol walk by kernel decide), nesting growth. "
          "Harness: full-language generated programs P -> D1 -> D2 -> D3 through `hawk -d`; acceptance, stdout, files, exit status and error class of P, D1, D2 compared on the real code "
-         "(oracle), then D1 compared with the model's print(parse P) for expression programs.",
+         "(oracle), then D1 compared with the model's print(parse P) for expression programs. "
+         "Added in the last round: a print/printf statement family (1..4 arguments x plain/compound/parenthesised/call in every position x every redirection kind x target forms) in which every item writes to its own file so the stream that got the text is observed; every string/char escape incl. NUL before a digit; other CLI modes.",
     note="The converse (image of parse is within WFparse) and fuel sufficiency of lexer/parser are not proved. Two recorded findings (50+-operator left chains deparse beyond the parse depth limit; "
          "folded non-finite constants print as `inf`).",
     tech="Lean 4 proof (printer/parser round trip over tables regenerated from the source) + behavioural round-trip oracle on the real deparser + differential correspondence")
@@ -202,41 +217,45 @@ E["C08"] = dict(
          "byref_independent, literal_placement, inc_dec_pre/post. Two clauses are PARTIAL with machine-checked witnesses of necessity: compound_assign_partial (needs: y does not assign x; "
          "`x += (x=5)` evaluates the right side first) and fold_expr_error_partial (the folder reports division by zero also in branches never evaluated) = the two recorded findings. "
          "Harness: nine variant programs per expression tree (literal/folded, named, @global, @local, parameter, by-ref parameter, map with string/integer keys, array) run through the CLI; "
-         "variant equality on the real output first, then every line compared with the model (driver emulates x87 extended floats exactly).",
+         "variant equality on the real output first, then every line compared with the model (driver emulates x87 extended floats exactly). "
+         "Added in the last round: the inc/dec-versus-add-assign clause as an oracle on the implementation's own output, maps held by globals/locals/parameters, by-reference targets of every kind, nested containers, positional targets with float results.",
     note="Scalar operands and constant subscripts only; string<->number conversion, %.6g, comparison and matching are parameters; signed overflow and shift counts modelled as x86-64 computes them.",
     tech="Lean 4 proof (fold = eval, storage independence) over operator tables regenerated from the source + variant-equality oracle + differential correspondence")
 E["C12"] = dict(
-    text="Lean 4 theorems (Props/C12.lean, 17) about an executable transcription of the format scanner of hawk_rtx_format / hawk_rtx_formatmbs, fmt_uintmax (fmt-imp.h: digit loop, "
+    text="Lean 4 theorems (Props/C12.lean, 23) about an executable transcription of the format scanner of hawk_rtx_format / hawk_rtx_formatmbs, fmt_uintmax (fmt-imp.h: digit loop, "
          "precision zeros, sign, prefix, the three fill layouts, required-length return and retry), the %c/%s emitters and fmt.c's float-spec recomposition, against a declarative ISO C "
          "specification CSpec.render: format_int_eq_C (d i o u x X with any flags in any order, literal or * width/precision incl. negatives, any 64-bit value, unbounded width/precision), "
          "format_char_eq_C, format_str_eq_C, %% , unknown/incomplete specs copied through unchanged, float_spec_passthrough (libc receives exactly the user's spec with * substituted), "
          "CONVFMT/OFMT take the same path, composition over a whole format string with arguments consumed in order, missing argument fails. Harness: hawk sprintf vs C snprintf with the "
          "equivalently typed argument on the flags x width x precision x conversion x value grid (oracle), printf through the CLI, CONVFMT/OFMT; then hawk vs the model and CSpec vs snprintf "
-         "(the hand-written C spec is itself validated against glibc on every run).",
+         "(the hand-written C spec is itself validated against glibc on every run). "
+         "Added in the last round: the other consumers of number-to-string conversion (subscripts, SUBSEP keys, comparison, gsub targets, by-reference parameters, OFMT output) at text lengths straddling the fixed buffers (63..65, 126..129, 255..257, 4095..4097) and hawk_rtx_valtostr's five output kinds through the API, with whole-text-or-failure theorems for the fixed-buffer kinds.",
     note="Trusted: libc float digit generation; valtoint/valtoflt/valtostr results are carried as arguments; GROW buffer management (ASan); widths/precisions >= 2^31 outside the claim "
          "(`%.2147483648g` overflows a stack buffer in fmt.c: recorded under C01's scope in DESIGN.md).",
     tech="Lean 4 proof (hawk's integer/char/string conversions = ISO C rendering for all flags/widths/precisions/values) + snprintf oracle + differential correspondence")
 E["C02"] = dict(
-    text="PARTIAL by nature (equality with reference implementations is differential). Lean 4 theorems (Props/C02.lean, 40 obligations) about a hand-written Lean reference interpreter for the "
+    text="PARTIAL by nature (equality with reference implementations is differential). Lean 4 theorems (Props/C02.lean, 47 obligations) about a hand-written Lean reference interpreter for the "
          "POSIX-compatible subset (BEGIN/END/pattern/range rules, control flow, exact-integer and string expressions, fields/NF/$0 rebuilds, blank and single-char FS, OFS/ORS/SUBSEP, arrays "
          "by reference, user functions with recursion, the string builtins, integer/string printf conversions, the four getline forms, > >> close, numeric strings; fuel with an explicit "
          "out-of-fuel error): range_automaton_spec (a range rule fires on record i iff some j<=i matches begin and no record in [j,i) matches end), the twelve driver_phases theorems (exit in "
          "BEGIN skips input and still runs END; exit in a main rule runs END; exit in END stops; status = last exit expr mod 256; next; end of input), getline_counters for every form, "
          "uninitialised = 0 and empty, number<->string round trips on canonical numerals, determinism, fuel exhaustion is reported. Two ties: hawk <-> model on typed-generator programs x "
          "multi-file inputs, and (gawk --posix AND mawk agree) <-> model, which validates the model as reference; hawk != agreed references (model = references) is a violation with program, "
-         "inputs and the outputs as replay; model != references is a model bug (correspondence, no failing input).",
+         "inputs and the outputs as replay; model != references is a model bug (correspondence, no failing input). "
+         "Added in the last round: the invocation (-F, -v in order, var=value operands processed when reached) in the model with theorems cmdline_before_begin / operand_assignment_when_reached; match() with RSTART/RLENGTH, regular-expression sub/gsub, printf float conversions of integers; special variables assigned from unset/number/expression values.",
     note="Trusted: gawk 5.2.1 and mawk 1.3.4 where they agree; the pairing of awk text and encoded AST in the generator. Outside the profile: inexact division, non-canonical numerals, "
          "index(s,\"\"), substr with start < 0 (references disagree). Two recorded findings (numeric-string detection of bare fields is off because hawk_clear drops the option bit; the subscript "
          "of a read-modify-write lvalue is evaluated twice).",
     tech="Lean 4 proof about a reference interpreter (range automaton, phase driver, getline counters) + two differential correspondences (hawk and gawk/mawk vs the model)")
 E["C06"] = dict(
-    text="PARTIAL (TRE's TNFA construction and its two matchers are NOT modelled; they are tied by bounded exhaustive correspondence only). Lean 4 theorems (Props/C06.lean, 27) about a "
+    text="PARTIAL (TRE's TNFA construction and its two matchers are NOT modelled; they are tied by bounded exhaustive correspondence only). Lean 4 theorems (Props/C06.lean, 34) about a "
          "verified SPECIFICATION matcher for EREs (chars, ., bracket classes, ^ $, concat, |, * + ? {m,n}, groups; NOTBOL; IGNORECASE): ends_sound_complete (the executable set of end positions "
          "= the denotational Matches relation), matchLL_sound_complete (returns (start,len) iff it is a match, none starts earlier, none from that start is longer; none iff no match), uniqueness, "
          "the algebraic laws (star unfolding, {m,n} expansions, groups transparent), icase_eq_fold, notbol_suffix. Harness: the real hawk_rtx_matchrex wrappers (backtracking engine, which every "
          "awk-level match uses), the parallel engine (used by hawk-sed) and glibc regexec on every ERE tree up to a size bound over {a,b} x every subject up to a length bound x IGNORECASE x NOTBOL "
          "(1.2M pairs quick, 15.8M thorough), plus ~, match(), gsub, split, regex FS at language level; a python leftmost-longest reference and engine agreement are the oracle, then the Lean "
-         "matcher is compared with the reference.",
+         "matcher is compared with the reference. "
+         "Added in the last round: all twelve named classes, word assertions (\\< \\> \\b \\B, with the machine-checked witness that the suffix theorem fails for them), NOTEOL, hex escapes, every {m,n} form, POSIX-invalid patterns both sides must reject, and six more API entry points per request.",
     note="Trusted: the unverified ERE text parser in the driver (cross-checked by a python parser and glibc on every pair); ASCII case folding; submatch offsets not compared. One recorded finding "
          "(tre-empty-path-anchor: a nullable sub-expression is skipped along one fixed empty path whose ^/$ assertions it inherits; both engines).",
     tech="Lean 4 proof of a specification matcher (leftmost-longest soundness and completeness) + bounded-exhaustive correspondence with both TRE engines and glibc")
